@@ -76,6 +76,16 @@ def install(bsp, cfg):
         if lump is BSP_LUMPS.LEAFWATERDATA:
             return {'op': 'x_water', 'layout': layout, 'texinfo': N.ns(self.texinfo),
                     'items': [{'sz': W.f32bits(x.surface_z), 'mz': W.f32bits(x.min_z), 'texinfo': N.n(x.surface_texinfo)} for x in data]}
+        if lump is BSP_LUMPS.MODELS:
+            spawn = self.ents.spawn
+            md = {}
+            for m in data.values():
+                md[N.n(m)] = {'floats': [W.f32bits(x) for x in (*m.mins, *m.maxes, *m.origin)], 'node': N.n(m.node), 'faces': N.ns(m.faces),
+                              'kv': None if m.phys_keyvalues is None else list(m.phys_keyvalues.serialise().encode('ascii')),
+                              'solids': [list(x) for x in m._phys_solids]}
+            ents = [e for e in data.keys() if e is not spawn]
+            return {'op': 'x_bmodels', 'nodes': N.ns(self.nodes), 'faces': N.ns(self.faces), 'world': N.n(data[spawn]),
+                    'entModels': [N.n(data[e]) for e in ents], 'md': [[k, v] for k, v in md.items()], '_ents': ents}
         if lump is BSP_LUMPS.BRUSHES:
             sides = {}
             for b in data:
@@ -162,6 +172,10 @@ def install(bsp, cfg):
             return {'bytes': list(out), 'tabs': {'texinfo': N.ns(self.texinfo), 'planes': N.ns(self.planes), 'surfedges': N.ns(self.surfedges)}}
         if req['op'] == 'x_water':
             return {'bytes': list(out), 'texinfo': N.ns(self.texinfo)}
+        if req['op'] == 'x_bmodels':
+            ents = req.pop('_ents')
+            return {'idx': [int(e['model'][1:]) for e in ents], 'bytes': list(out), 'phys': L('PHYSCOLLIDE'),
+                    'nodes': N.ns(self.nodes), 'faces': N.ns(self.faces)}
         if req['op'] == 'x_brushes':
             return {'brushes': list(out), 'sides': L('BRUSHSIDES'),
                     'tabs': {'planes': N.ns(self.planes), 'texinfo': N.ns(self.texinfo)}}
